@@ -390,6 +390,39 @@ func c05errors(c *Ctx, p *load.Program, pkgPath, prefix string) {
 		return
 	}
 	acc := accept[0]
+	// an input that ends right after the fixed-width body fields (empty payload) is rejected: on
+	// the accepted path either the last read went through (*bytes.Reader).Read without error (which
+	// reports io.EOF at the end of the input, even for an empty buffer), or the remaining length /
+	// the number of payload bytes read was tested to be non-zero. io.ReadFull into a zero-length
+	// buffer succeeds, so its nil error alone does not exclude the empty payload.
+	{
+		fs := facts.At(acc, nil)
+		nonEmpty := false
+		for _, f := range fs {
+			a := f.Atom
+			if strings.HasPrefix(a, "(*bytes.Reader).Read(") && strings.HasSuffix(a, "#1 == nil") && strings.Contains(a, "(*bytes.Reader).Len(") {
+				nonEmpty = true
+			}
+			x, op, y, ok := cmpOf(f)
+			if !ok || (op != token.NEQ && op != token.LSS) {
+				continue
+			}
+			for _, pr := range [][2]ssa.Value{{x, y}, {y, x}} {
+				if k, isK := constInt(pr[0]); !isK || k != 0 {
+					continue
+				}
+				if op == token.LSS && pr[0] != x {
+					continue // only 0 < e
+				}
+				t := facts.Term(pr[1])
+				if strings.HasPrefix(t, "(*bytes.Reader).Len(") || strings.HasPrefix(t, "(*bytes.Reader).Read(") && strings.HasSuffix(t, "#0") || strings.HasPrefix(t, "len(") && strings.Contains(t, "(*bytes.Reader).Len(") {
+					nonEmpty = true
+				}
+			}
+		}
+		R.Check(prefix+".errors", prefix+".errors/Unmarshal/empty-payload-rejected", c.rel(p.Pos(instrPos(acc))), "an input that ends right after the fixed-width body fields is rejected (the payload is never empty)", nonEmpty,
+			"no fact on the accepted path excludes an empty payload: an input truncated exactly at the payload boundary is accepted (io.ReadFull into a zero-length buffer returns nil)")
+	}
 	// every field of the result is assigned on every accepted path, whatever value was decoded:
 	// a store that is skipped for some decoded values (say, "0 means unset") makes the decoded VAA
 	// differ from the encoded one for exactly those values
